@@ -5,6 +5,7 @@ import (
 	"encoding/base64"
 
 	p2pcrypto "github.com/libp2p/go-libp2p/core/crypto"
+	"golang.org/x/crypto/curve25519"
 	"golang.org/x/crypto/nacl/box"
 
 	"berty.tech/weshnet/v2/pkg/cryptoutil"
@@ -97,6 +98,20 @@ func (hc *handshakeContext) receivePeerEphemeralPubKey() error {
 }
 
 // Computes box key for step 3 (Requester Authenticate): box[a.b|a.B]
+// computeSharedEphemeral derives the session secret from the two ephemeral
+// keys. A low-order (degenerate) peer key is refused: with such a key the
+// secret is the same constant in every session, and the signature over it that
+// one party produces in one session could be replayed to anyone else.
+func (hc *handshakeContext) computeSharedEphemeral() error {
+	if _, err := curve25519.X25519(hc.ownEphemeral[:], hc.peerEphemeral[:]); err != nil {
+		return errcode.ErrCode_ErrInvalidInput.Wrap(err)
+	}
+
+	box.Precompute(hc.sharedEphemeral, hc.peerEphemeral, hc.ownEphemeral)
+
+	return nil
+}
+
 func (hc *handshakeContext) computeRequesterAuthenticateBoxKey(asRequester bool) (*[cryptoutil.KeySize]byte, error) {
 	var sharedReqEphemeralRespAccountID [cryptoutil.KeySize]byte
 
